@@ -39,16 +39,19 @@ pub open spec fn ttg_ok(t: Token) -> bool
     match t {
         Token::Leaf{token_type, token_str} => token_type is Subgoal && token_str@.len() < i32::MAX,
         Token::Branch{token_type, children} =>
-            if token_type is And || token_type is Or { ttg_kids_ok(children@) }
+            if token_type is And { ttg_kids_ok(children@) && no_ops(children@) }
+            else if token_type is Or { ttg_kids_ok(children@) && no_or(children@) }
             else if token_type is Group { children@.len() == 1 && ttg_all(children@) }
             else { true },
     }
 }
-// children of an And / Or branch: a Subgoal-typed child is a leaf, a Group-typed child is convertible
+// children of an And / Or branch are operands: a Subgoal leaf, or a convertible Group / And / Or branch (C19: each of them
+// becomes an operand of the goal - none is a separator or a parenthesis that could be skipped)
 pub open spec fn ttg_kids_ok(s: Seq<Token>) -> bool
     decreases s,
 {
-    s.len() == 0 || ((ttype(s[0]) is Subgoal ==> short_leaf(s[0])) && (ttype(s[0]) is Group ==> ttg_ok(s[0])) && ttg_kids_ok(s.drop_first()))
+    s.len() == 0 || (((ttype(s[0]) is Subgoal && short_leaf(s[0])) || (s[0] is Branch && (ttype(s[0]) is Group || ttype(s[0]) is And || ttype(s[0]) is Or) && ttg_ok(s[0])))
+                     && ttg_kids_ok(s.drop_first()))
 }
 pub open spec fn ttg_all(s: Seq<Token>) -> bool
     decreases s,
@@ -56,7 +59,7 @@ pub open spec fn ttg_all(s: Seq<Token>) -> bool
     s.len() == 0 || (ttg_ok(s[0]) && ttg_all(s.drop_first()))
 }
 pub open spec fn ttg_kid_ok(c: Token) -> bool {
-    (ttype(c) is Subgoal ==> short_leaf(c)) && (ttype(c) is Group ==> ttg_ok(c))
+    (ttype(c) is Subgoal && short_leaf(c)) || (c is Branch && (ttype(c) is Group || ttype(c) is And || ttype(c) is Or) && ttg_ok(c))
 }
 
 pub proof fn lemma_ttg_kids_index(s: Seq<Token>, i: int)
@@ -543,4 +546,52 @@ pub proof fn lemma_tok_done(ts: Seq<Token>)
             i + 1 < ts.len() && (ttype(ts[i + 1]) is Subgoal || ttype(ts[i + 1]) is LParen) by {
         assert(next_ok(ts, i));
     }
+}
+
+// C19 (goal structure): the goal built from an And / Or branch has the same kind and one operand per child
+pub open spec fn operands_kept(t: Token, g: Goal) -> bool {
+    &&& (t is Branch && ttype(t) is And ==> match g { Goal::OperatorGoal(Operator::And(v)) => v@.len() == kids(t).len(), _ => false })
+    &&& (t is Branch && ttype(t) is Or ==> match g { Goal::OperatorGoal(Operator::Or(v)) => v@.len() == kids(t).len(), _ => false })
+}
+pub open spec fn res_operands_kept(t: Token, r: Result<Goal, String>) -> bool {
+    match r { Ok(g) => operands_kept(t, g), Err(_) => true }
+}
+
+// children of an And branch: Subgoal leaves and convertible Groups only (conjunctions are formed before disjunctions, so an
+// And branch never holds an And or an Or branch directly)
+pub open spec fn no_ops(s: Seq<Token>) -> bool {
+    forall|i: int| 0 <= i < s.len() ==> !(ttype(#[trigger] s[i]) is And) && !(ttype(s[i]) is Or)
+}
+pub open spec fn and_kids_ok(s: Seq<Token>) -> bool { ttg_kids_ok(s) && no_ops(s) }
+// an Or branch holds no Or branch directly (its operands are Subgoal leaves, And branches and Groups)
+pub open spec fn no_or(s: Seq<Token>) -> bool {
+    forall|i: int| 0 <= i < s.len() ==> !(ttype(#[trigger] s[i]) is Or)
+}
+pub open spec fn or_kids_ok(s: Seq<Token>) -> bool { ttg_kids_ok(s) && no_or(s) }
+pub proof fn lemma_operands_no_or(s: Seq<Token>)
+    requires operands_ok(s),
+    ensures no_or(s),
+{
+    assert forall|i: int| 0 <= i < s.len() implies !(ttype(#[trigger] s[i]) is Or) by { assert(operand_ok(s[i])); }
+}
+pub open spec fn and_kid_ok(c: Token) -> bool {
+    (ttype(c) is Subgoal && short_leaf(c)) || (c is Branch && ttype(c) is Group && ttg_ok(c))
+}
+pub proof fn lemma_and_kids_index(s: Seq<Token>, i: int)
+    requires and_kids_ok(s), 0 <= i < s.len(),
+    ensures and_kid_ok(s[i]),
+{
+    lemma_ttg_kids_index(s, i);
+}
+pub open spec fn and_operand_ok(c: Token) -> bool {
+    is_sub_leaf(c) || (c is Branch && ttype(c) is Group && ttg_ok(c))
+}
+pub open spec fn and_operands_ok(s: Seq<Token>) -> bool { forall|i: int| 0 <= i < s.len() ==> and_operand_ok(#[trigger] s[i]) }
+pub proof fn lemma_and_operands_ttg(s: Seq<Token>)
+    requires and_operands_ok(s),
+    ensures and_kids_ok(s), operands_ok(s),
+{
+    assert forall|i: int| 0 <= i < s.len() implies operand_ok(#[trigger] s[i]) by { assert(and_operand_ok(s[i])); }
+    lemma_operands_ttg(s);
+    assert forall|i: int| 0 <= i < s.len() implies !(ttype(#[trigger] s[i]) is And) && !(ttype(s[i]) is Or) by { assert(and_operand_ok(s[i])); }
 }
